@@ -22,6 +22,15 @@ func VerifC06ExecuteBlock(accountdb *account.AccountDB, block *types.Block, situ
 	return newVMExecutor(accountdb, block, situation).Execute()
 }
 
+// VerifC06ExecuteBlockCtx is VerifC06ExecuteBlock returning also the executor context (it holds the
+// refund requests collected from the block's miner-refund transactions, which after() hands to
+// RefundManager.Add).
+func VerifC06ExecuteBlockCtx(accountdb *account.AccountDB, block *types.Block, situation string) (common.Hash, []*types.Receipt, map[string]interface{}) {
+	ex := newVMExecutor(accountdb, block, situation)
+	state, _, _, receipts := ex.Execute()
+	return state, receipts, ex.context
+}
+
 // VerifC06DeductGasFee is deductGasFee.
 func VerifC06DeductGasFee(gasUsed uint64, source string, accountdb *account.AccountDB, hash common.Hash) {
 	deductGasFee(gasUsed, source, accountdb, hash)
